@@ -254,3 +254,34 @@ def string_flags_check(prog, R, rule):
                 bad.append((s_, res))
         R.ob(rule, fn.split("::")[-1], not bad, b.at, f"27 bodies over {{_,0,a}}^3: (terminated, only 0/1, consecutive underscores) as specified" if not bad else
              f"flags of a terminated string deviate for bodies {[(s_, r) for s_, r in bad[:3]]} (expected terminated, only-0/1 iff all of 0/_ , consecutive-underscores iff it contains '__'): a well-formed bit string gets a lexical error or a malformed one none")
+
+
+def predicate_class(prog, fn, alphabet):
+    """{c: True/False/'?'} for a `fn(c: char) -> bool` by evaluating its MIR on each character"""
+    b = prog.body(fn)
+    out = {}
+    for c in alphabet:
+        vals = set()
+        for p in SymExec(prog, b, max_paths=50).paths({1: ("c", "char", c)}):
+            r = p.env.get(0)
+            vals.add(bool(r[2]) if isinstance(r, tuple) and r[0] == "c" else "?")
+        out[c] = vals.pop() if len(vals) == 1 else "?"
+    return out
+
+
+WHITESPACE = [0x09, 0x0A, 0x0B, 0x0C, 0x0D, 0x20, 0x85, 0x200E, 0x200F, 0x2028, 0x2029]     # Unicode Pattern_White_Space (the lexer's documented table)
+
+
+def whitespace_check(prog, R, rule):
+    fn = "oq3_lexer::is_whitespace"
+    b = prog.body(fn)
+    if b is None:
+        R.ob("ANCHOR", fn, False)
+        return
+    alpha = sorted(set(range(0, 128)) | set(WHITESPACE) | {0xA0, 0x1680, 0x2000, 0x2003, 0x3000, 0xFEFF, 0xB5})
+    t = predicate_class(prog, fn, alpha)
+    got = sorted(c for c, v in t.items() if v is True)
+    amb = [c for c, v in t.items() if v == "?"]
+    R.ob(rule, "is_whitespace == Pattern_White_Space", got == WHITESPACE and not amb, b.at,
+         f"{len(alpha)} characters evaluated; whitespace = {[hex(c) for c in got]}" if got == WHITESPACE and not amb else
+         f"is_whitespace differs from the documented table: missing {[hex(c) for c in WHITESPACE if c not in got]}, extra {[hex(c) for c in got if c not in WHITESPACE]}, undecided {[hex(c) for c in amb][:4]} (a line break or blank of that kind between two tokens becomes an error token)")
